@@ -14,18 +14,39 @@
   4. Binding self-test: one output of a recorded good line per family is corrupted (and one op renamed);
      TLC must reject exactly those lines.
 """
-import json, math, os, re, random, collections
+import json, math, os, re, random, collections, zlib
 import vlib
 
 LEVEL = "exploration"
 
 QUICK_VARIANTS = ["rel", "w32"]
 THOROUGH_VARIANTS = ["rel", "w32", "fast", "dbg"]
-QUICK_CAP = 600          # quick tier: lines kept per (build, reduction function, edition) (stride subset) ...
-QUICK_CAP_OTHER = 300    # ... and per (build, other function, edition)
+QUICK_CAP = 400          # quick tier: lines kept per (build, reduction function, edition) (stride subset) ...
+QUICK_CAP_OTHER = 120    # ... and per (build, other function, edition)
 THOROUGH_CAP = {"rel": 4000, "w32": 3000, "fast": 1200, "dbg": 1200}
 SHARD = 60000            # lines per TLC run
 DRV_TIMEOUT = 900
+
+
+_GRP = re.compile(r'"op":"([^"]+)","ed":"([^"]+)"')
+_FN = re.compile(r'"fn":"([^"]+)"')
+_D = re.compile(r'"d":(\d+)')
+_N = re.compile(r'"(?:n|no)":(\d+)')
+_CLS = re.compile(r'"cls":"[^"]*","alias":"[^"]*"')
+
+
+def _nof(l):
+    m = _N.search(l)
+    return int(m.group(1)) if m else -1
+
+
+def _grp(m, l):
+    op = m.group(1)
+    if op in ("word1", "wordRot", "u16blk"):
+        fn = _FN.search(l)
+        d = _D.search(l) if op == "u16blk" else None
+        return (op, m.group(2), fn.group(1) if fn else "", d.group(1) if d else "")
+    return (op, m.group(2), "", "")
 
 
 # ------------------------------------------------------------------ keys
@@ -38,13 +59,14 @@ def coarse(cls):
 
 def key_of(r):
     tail = ":hang" if "hang" in r else ":abort" if "abort" in r else ""
+    if r["fam"] == "gf2":
+        return "gf2:%s:%s%s" % (r["op"], re.sub(r"(^|,)field=[^,]*,?", "", r.get("cls", "")), tail)
     if r["fam"] == "qr":
-        return "%s:%s:%s:no=%s:%s%s" % (r["op"], r.get("ctor"), r.get("strat"), r.get("no"), coarse(r.get("cls", "")), tail)
+        return "%s:%s:%s:%s%s" % (r["op"], r.get("ctor"), r.get("strat"), coarse(r.get("cls", "")), tail)
     if r["fam"] == "word":
         return "%s%s:%s:%s%s" % (r.get("famw", "u16"), r.get("fn", r["op"]), r["ed"], re.sub(r"\d+$", "", r.get("cls", "")), tail)
-    n = r.get("n", r.get("l", "-"))
-    nm = "n=%s" % n + (",m=%s" % r["m"] if "m" in r and r["fam"] != "pp" or ("m" in r and r["op"] in ("ppMul", "ppDiv", "ppMod", "ppGCD", "ppExGCD")) else "")
-    return "%s:%s:%s:%s%s" % (r["op"], r["ed"], nm, coarse(r.get("cls", "")), tail)
+    # the operand length is not part of the key (the same class fails at every length); it is given in the text
+    return "%s:%s:%s%s" % (r["op"], r["ed"], coarse(r.get("cls", "")), tail)
 
 
 def group_of(r):
@@ -227,6 +249,7 @@ def run(ctx):
     results = [rec(v) for v in variants]        # builds are cached; the driver runs a few seconds
     lines = []
     per_variant = {}
+    nskipped = 0
     for v, b, out, rc, err in results:
         if rc != 0:
             # locate the crash: unbuffered re-run, the last complete line precedes the crashing call
@@ -247,45 +270,55 @@ def run(ctx):
                               "driver built as %s stopped with rc=%d after the call %s (%s): %s"
                               % (v, rc, last.get("op"), last.get("cls"), (err2 or err)[-300:]), last)
             out = out2
+        # two streaming passes (the thorough enumeration is ~800 k lines per build): 1. size of every
+        # (function, edition) group, 2. parse only the selected lines: every k-th call of a group larger than its cap
+        # (fixed phase: the same classes for every seed, so that keys are stable; seeds vary the data).  Lines of calls
+        # that hung / aborted are always kept, the complete enumeration of the u16 helpers is never reduced.
+        cnt = collections.Counter()
+        minn = {}
+        nrec = 0
+        with open(out) as f:
+            for l in f:
+                m = _GRP.search(l)
+                if m and l.rstrip().endswith("}"):
+                    g = _grp(m, l)
+                    cnt[g] += 1
+                    nrec += 1
+                    nn = _nof(l)
+                    if nn < minn.get(g, 1 << 30):
+                        minn[g] = nn
+        pos = collections.Counter()
         rows = []
         with open(out) as f:
             for l in f:
-                l = l.strip()
-                if l.endswith("}"):
-                    try:
-                        rows.append(json.loads(l))
-                    except Exception:
-                        pass
-        for r in rows:
-            r["variant"] = v
-        per_variant[v] = len(rows)
+                m = _GRP.search(l)
+                if not (m and l.rstrip().endswith("}")):
+                    continue
+                if '"skip":1' in l:
+                    nskipped += 1
+                    continue
+                g = _grp(m, l)
+                cap = (QUICK_CAP if g[0].startswith("zzRed") else QUICK_CAP_OTHER) if ctx.quick else THOROUGH_CAP.get(v, 1200)
+                stride = 1 if (cnt[g] <= cap or g[0] == "u16blk") else (cnt[g] + cap - 1) // cap
+                # the smallest operand length of every function is never reduced (the minimal failing class, hence the
+                # key of a finding, is then the same for every seed and tier); longer operands: classes whose hash is 0
+                # modulo the stride (a class is kept or dropped as a whole, independently of the data)
+                small = _nof(l) <= max(1, minn.get(g, 0))
+                if not small and stride > 1 and '"hang":1' not in l and '"abort":1' not in l:
+                    c = _CLS.search(l)
+                    if zlib.crc32(("%s|%s|%s" % (g, _nof(l), c.group(0) if c else "")).encode()) % stride:
+                        continue
+                try:
+                    r = json.loads(l)
+                except Exception:
+                    continue
+                r["variant"] = v
+                rows.append(r)
+        per_variant[v] = nrec
         lines += rows
     ev.cov["lines_recorded"] = per_variant
-    skipped = [r for r in lines if "skip" in r]
-    lines = [r for r in lines if "skip" not in r]
-    ev.cov["calls_skipped_after_repeated_hang"] = len(skipped)
-
-    # ---- subset of the heavy functions: the structure is recorded completely; a stride subset per (build, function, edition)
-    # is validated (fixed stride phase: the same classes for every seed, so that keys are stable; seeds vary the data).
-    # The complete enumeration of the u16 helpers is never reduced.
-    groups = collections.defaultdict(list)
-    for i, r in enumerate(lines):
-        groups[(r["variant"], r["op"], r["ed"], r.get("fn", ""), str(r.get("d")) if r["op"] == "u16blk" else "")].append(i)
-    keep = set()
-    for g, idx in groups.items():
-        cap = QUICK_CAP if ctx.quick else THOROUGH_CAP.get(g[0], 1200)
-        if ctx.quick and not g[1].startswith("zzRed"):
-            cap = QUICK_CAP_OTHER
-        if len(idx) <= cap or g[1] == "u16blk":
-            keep.update(idx)
-        else:
-            stride = (len(idx) + cap - 1) // cap
-            keep.update(idx[0::stride])
-            # hang / abort lines are never dropped
-            keep.update(i for i in idx if "hang" in lines[i] or "abort" in lines[i])
-    dropped = len(lines) - len(keep)
-    lines = [r for i, r in enumerate(lines) if i in keep]
-    ev.cov["subset_dropped"] = dropped
+    ev.cov["calls_skipped_after_repeated_hang"] = nskipped
+    ev.cov["subset_dropped"] = sum(per_variant.values()) - nskipped - len(lines)
     ev.assume("per build, function and edition at most %s recorded calls are validated (every k-th call of the enumeration); "
               "the u16 helpers are always complete" % ("%d (reductions) / %d (others)" % (QUICK_CAP, QUICK_CAP_OTHER) if ctx.quick else json.dumps(THOROUGH_CAP)))
 
@@ -389,7 +422,7 @@ def run(ctx):
         def size(k):
             r0 = keys[k][0]
             seeded = bool(re.search(r"rand|=s\b|ws\b|seeded", coarse(r0.get("cls", ""))))
-            return (r0.get("n") or r0.get("no") or 0, seeded, sum(len(v) if isinstance(v, list) else 0 for v in r0.values()), k)
+            return (r0.get("n") or r0.get("no") or r0.get("m") or 0, seeded, k)
         order = sorted(keys, key=size)
         total = sum(len(v) for v in keys.values())
         hist["%s:%s" % (g[1], g[2]) + (":hang" if g[4] else ":abort" if g[5] else "")] = {"lines": total, "classes": len(keys)}
